@@ -14,6 +14,7 @@ import Hive.Gen.C15_Twins
 import Hive.Gen.C15_Bodies
 import Hive.Proofs.EventsOMap
 import Hive.Proofs.EventsRegSim
+import Hive.Proofs.EventsRegSimConc
 /-!
 # C15 — events, promises and notifiers deliver exactly the right calls
 
@@ -1016,9 +1017,12 @@ theorem C15_registry_simulation (ops : List ROp) :
     (∀ x, r.live.contains x = has s.m x) ∧
     (∀ a, a < s.m.heap.length →
       keyOf s.m a = some (a + 1) ∧ (nextOf s.m a).map (· + 1) = Hive.EventsIter.next r (a + 1)) := by
-  obtain ⟨as, h⟩ := sim_run ops
-  exact ⟨h.cnt, h.len, fun fuel hf => h.walk_eq fuel hf, h.head_eq, h.contains_iff,
-    fun a ha => ⟨h.keys a ha, h.next_eq ha⟩⟩
+  obtain ⟨as, h, hfull⟩ := sim_run ops
+  refine ⟨h.cnt, h.len, fun fuel hf => h.walk_eq fuel hf, h.head_eq, h.contains_iff,
+    fun a ha => ⟨h.keys a ha, h.next_eq ha ?_⟩⟩
+  by_cases hm : a ∈ as
+  · left; rw [← h.live]; exact mem_map_succ.mpr hm
+  · right; exact hfull a ha hm
 
 /-- One step of the simulation, for any related pair of states (the induction step of the theorem above, usable from
 any reachable state — e.g. between two steps of an iterator). -/
@@ -1034,6 +1038,63 @@ example :
     let ops : List ROp := [.attach 10, .attach 20, .attach 30, .delete 2, .delete 2, .attach 40, .delete 9]
     (runReg ops).live = [1, 3, 4] ∧ nextOf (runCode ops).m 1 = some 2 ∧ Hive.EventsIter.next (runReg ops) 2 = some 3 ∧
     (walk (runCode ops).m 9 (runCode ops).m.head) = [0, 2, 3] := by
+  decide
+
+/-- **C15, weak iteration on the code-level ordered map (any interleaving).**  Start from the map + hook counter
+after any history of `Hook` / `Unhook` (nobody iterating yet), with any pool of iterating `Trigger` callers — each reads
+`head`, hands the key of the element it stands on to the consumer, then reads that element's `next` pointer, whether the
+element is still in the list or has been removed meanwhile —, `Hook` callers (`hooksCounter.Add(1)`; `Set`) and `Unhook`
+callers (`Delete`), all on the **pointer-level** structure.  For hooks `P` that are attached at the start and that nobody
+unhooks: in every reachable configuration every iterator has invoked hook ids in strictly increasing order (attachment
+order, nobody twice), only ids that were handed out, and a finished iterator has invoked every hook of `P` exactly once.
+Proof: step-by-step simulation by the abstract system (`reach_sim`) and `C15_weak_iteration`. -/
+theorem C15_weak_iteration_code (P : List Nat) (ops : List ROp) (ts ts' : List CTh) (s' : Code)
+    (hP : ∀ p ∈ P, has (runCode ops).m p = true) (hts : ∀ t ∈ ts, t.initial = true)
+    (hdel : ∀ x b, CTh.del x b ∈ ts → x ∉ P) (hr : Reach csys (runCode ops, ts) (s', ts')) :
+    ∀ pc vs, CTh.it pc vs ∈ ts' →
+      vs.Pairwise (· < ·) ∧ (∀ v ∈ vs, v ≤ s'.c) ∧ (pc = .fin → ∀ p ∈ P, vs.count p = 1) := by
+  obtain ⟨as, h, _⟩ := sim_run ops
+  have h0 := h.forget
+  have hwf : Hive.EventsIter.Reg.WF { runReg ops with frozen := [] } := ⟨h.sorted, h.live_le, rfl⟩
+  have hP' : ∀ p ∈ P, p ∈ ({ runReg ops with frozen := [] } : Hive.EventsIter.Reg).live := by
+    intro p hp
+    have := hP p hp
+    rw [← h.contains_iff] at this
+    simpa using this
+  have hts' : ∀ t ∈ ts.map absTh, t.initial = true := by
+    intro t ht
+    obtain ⟨t0, ht0, rfl⟩ := List.mem_map.mp ht
+    exact initial_abs (hts t0 ht0)
+  have hdel' : ∀ x b, Hive.EventsIter.Th.del x b ∈ ts.map absTh → x ∉ P := by
+    intro x b ht
+    obtain ⟨t0, ht0, he⟩ := List.mem_map.mp ht
+    cases t0 with
+    | it pc vs => simp [absTh] at he
+    | att v d => simp [absTh] at he
+    | del y d =>
+      simp only [absTh, Hive.EventsIter.Th.del.injEq] at he
+      obtain ⟨rfl, rfl⟩ := he
+      exact hdel _ _ ht0
+  have hinv0 := Hive.EventsIter.cfgInv_init (P := P) hwf hP' hts' hdel'
+  obtain ⟨r, as', hreach, hsim⟩ := reach_sim h0 hinv0 hr
+  intro pc vs hm
+  have hm' : Hive.EventsIter.Th.it (absPc pc) vs ∈ ts'.map absTh := List.mem_map.mpr ⟨_, hm, rfl⟩
+  obtain ⟨h1, h2, h3⟩ := C15_weak_iteration P _ r _ _ hwf hP' hts' hdel' hreach (absPc pc) vs hm'
+  refine ⟨h1, ?_, ?_⟩
+  · intro v hv; have := h2 v hv; rw [hsim.cnt] at this; exact this
+  · intro hpc; subst hpc; exact h3 rfl
+
+/-- Non-vacuity: after `Hook; Hook; Hook; Hook` the ids 1 and 4 are attached and protected; an iterator, two unhookers
+(of 2 and 3) and a hooker are admissible threads; and one schedule on the pointer-level structure: the iterator stands on
+element 1 (id 2) while ids 2 and 3 are unhooked and id 5 is attached — it continues through the removed element of id 3
+(frozen pointer) and invokes 1, 2, 3, 4, 5. -/
+example :
+    let ops : List ROp := [.attach 10, .attach 20, .attach 30, .attach 40]
+    (∀ p ∈ [1, 4], has (runCode ops).m p = true) ∧
+    (∀ t ∈ [CTh.it .start [], .del 2 false, .del 3 false, .att 50 false], t.initial = true) ∧
+    (let c := runSched csys (runCode ops, [CTh.it .start [], .del 2 false, .del 3 false, .att 50 false])
+      [(0, 0), (0, 0), (0, 0), (0, 0), (1, 0), (2, 0), (3, 0), (0, 0), (0, 0), (0, 0), (0, 0), (0, 0), (0, 0), (0, 0), (0, 0)]
+     c.2[0]? = some (.it .fin [1, 2, 3, 4, 5])) := by
   decide
 
 end regsim
